@@ -66,6 +66,7 @@ import BioCantor.Proofs.CDSChunkTie
 import BioCantor.Proofs.CDSConstructFrames
 import BioCantor.Proofs.CDSTranslate
 import BioCantor.Proofs.CDSFastPath
+set_option autoImplicit false   -- an unresolved name in a statement must be an error, never a bound variable
 namespace BioCantor.Props.C05
 open BioCantor BioCantor.Spec BioCantor.Model BioCantor.Proofs
 
